@@ -887,9 +887,23 @@ class DataFrameSchemaBackend(PandasSchemaBackend):
                 # none of the listed columns is present: nothing to compare,
                 # column presence is reported by check_column_presence
                 continue
-            duplicates = check_obj.duplicated(  # type: ignore
-                subset=subset, keep=keep_setting  # type: ignore
-            )
+            try:
+                duplicates = check_obj.duplicated(  # type: ignore
+                    subset=subset, keep=keep_setting  # type: ignore
+                )
+            except TypeError as exc:
+                # unhashable values (e.g. lists) cannot be compared
+                message = (
+                    f"cannot determine whether columns '{*subset,}' are "
+                    f"unique: {exc}"
+                )
+                return CoreCheckResult(
+                    passed=False,
+                    check="multiple_fields_uniqueness",
+                    reason_code=SchemaErrorReason.CHECK_ERROR,
+                    message=message,
+                    failure_cases=message,
+                )
             if duplicates.any():
                 # NOTE: this is a hack to support pyspark.pandas, need to
                 # figure out a workaround to error: "Cannot combine the
